@@ -57,6 +57,26 @@ type Q2 struct {
 	BslshA int `json:"B/A"`
 }
 
+// QBase is embedded below: go-json selects an embedded struct by the NAME OF ITS TYPE, and the sub-query of that
+// name applies to the members it promotes (one of them a context-aware marshaler with a sub-query of its own).
+type QBase struct {
+	A int
+	Z *QZ
+	W int `json:"w"`
+}
+
+type QE struct {
+	QBase
+	C int
+	N QBase
+}
+
+type QEP struct {
+	X int
+	*QBase
+	C int
+}
+
 type Q1 struct {
 	A int
 	B Q2
@@ -73,7 +93,11 @@ func c19Values() []interface{} {
 	q2b := Q2{A: 3, F: map[string]interface{}{"A": 1, "z": []interface{}{1}}}
 	full := Q1{A: 1, B: q2, C: &q2, D: []Q2{q2, q2b}, E: map[string]*Q2{"k": &q2, "n": nil}, F: &q2, G: "g"}
 	sparse := Q1{A: 0, B: q2b, C: nil, D: nil, E: nil, F: []interface{}{q3, &q2b, 1}, G: ""}
-	return []interface{}{full, &full, sparse, &sparse, q2, &q2, []Q1{full, sparse}, map[string]Q1{"m": full}}
+	qb := QBase{A: 1, Z: &QZ{"za", true, 3}, W: 5}
+	qe := QE{QBase: qb, C: 9, N: QBase{A: 2, Z: &QZ{"n", false, 4}, W: 6}}
+	qep := QEP{X: 1, QBase: &qb, C: 9}
+	return []interface{}{full, &full, sparse, &sparse, q2, &q2, []Q1{full, sparse}, map[string]Q1{"m": full},
+		qe, &qe, qep, &QEP{X: 2, C: 3}, []QE{qe, {C: 1}}}
 }
 
 // ---- query generation ----------------------------------------------------------------------------
@@ -259,6 +283,14 @@ func fieldValueByKey(v reflect.Value, key string) (reflect.Value, bool) {
 			}
 			continue
 		}
+		if f.Anonymous && f.Type.Kind() == reflect.Ptr && f.Type.Elem().Kind() == reflect.Struct {
+			if !v.Field(i).IsNil() {
+				if fv, ok := fieldValueByKey(v.Field(i).Elem(), key); ok {
+					return fv, true
+				}
+			}
+			continue
+		}
 		if n, ok, _ := universe.JSONName(f); ok && n == key {
 			return v.Field(i), true
 		}
@@ -293,9 +325,44 @@ func project(n *onode, v reflect.Value, q *json.FieldQuery) *onode {
 		for _, f := range q.Fields {
 			want[f.Name] = f
 		}
+		// members promoted from an embedded struct are selected through the embedded struct's name and restricted by
+		// the sub-query of that name
+		promoted := map[string]string{}
+		own := map[string]bool{}
+		for i := 0; i < v.NumField(); i++ {
+			f := v.Type().Field(i)
+			et := f.Type
+			if et.Kind() == reflect.Ptr {
+				et = et.Elem()
+			}
+			if f.Anonymous && et.Kind() == reflect.Struct && f.Tag.Get("json") == "" {
+				for j := 0; j < et.NumField(); j++ {
+					if nm, ok, _ := universe.JSONName(et.Field(j)); ok {
+						promoted[nm] = f.Name
+					}
+				}
+			} else if nm, ok, _ := universe.JSONName(f); ok {
+				own[nm] = true
+			}
+		}
 		out := &onode{kind: 'o'}
 		for i, k := range n.keys {
 			sub, ok := want[k]
+			if emb, isProm := promoted[k]; isProm && !own[k] {
+				eq := want[emb]
+				if eq == nil {
+					continue
+				}
+				sub, ok = &json.FieldQuery{Name: k}, true // the embedded struct selected as a whole
+				if len(eq.Fields) > 0 {
+					sub, ok = nil, false
+					for _, f := range eq.Fields {
+						if f.Name == k {
+							sub, ok = f, true
+						}
+					}
+				}
+			}
 			if !ok {
 				continue
 			}
